@@ -948,6 +948,12 @@ class C20(Prop):
       yield gen_update(rng)
     for _ in range(150 if quick else 2500):
       yield gen_history(rng)
+    for _ in range(6 if quick else 40):
+      h = gen_history(rng)
+      if not h['outer']:
+        h['outer'] = {'key_style': 'label'}
+      h['fresh_process'] = True
+      yield h
 
   # -- model side ---------------------------------------------------------------------------
   def model_request(self, case):
@@ -1006,6 +1012,9 @@ class C20(Prop):
         r = self.model_request({'op': 'render', 'value': st['value'], 'opts': merged_opts(case, st)})
         if r is None:
           return None
+        items.append({'opts': r['opts'], 'tree': r['tree']})
+      for st in case['steps']:        # the plain renders after the scopes: default options
+        r = self.model_request({'op': 'render', 'value': st['value'], 'opts': dict(DEFAULT_OPTS)})
         items.append({'opts': r['opts'], 'tree': r['tree']})
       return {'op': 'renders', 'items': items}
     if op == 'update':
@@ -1319,6 +1328,18 @@ class C20(Prop):
 
   def _impl_history(self, case):
     import contextlib
+    if case.get('fresh_process'):
+      # the same history in a brand-new interpreter: nothing an earlier render left behind can help or hide
+      import subprocess
+      import sys
+      from harness.common import framework
+      c = {k: v for k, v in case.items() if k != 'fresh_process'}
+      code = ('import sys, json; sys.path[:0] = [%r, %r]; from harness import c20; P = c20.PROP; P.setup_impl(); '
+              'print(json.dumps(P._impl_history(json.load(sys.stdin))))' % (framework.VERIF, framework.REPO))
+      p = subprocess.run([sys.executable, '-c', code], input=json.dumps(c), capture_output=True, text=True, timeout=120)
+      if p.returncode != 0:
+        raise RuntimeError('fresh-process history failed: %s' % p.stderr[-400:])
+      return json.loads(p.stdout.strip().split('\n')[-1])
     import pyglove as pg
 
     def sub(d, step):
@@ -1339,6 +1360,9 @@ class C20(Prop):
       with pg.view_options(**sub(case['outer'], case['steps'][0])):
         for i, st in enumerate(case['steps']):
           seq.append(run(i, st))
+      # after every scope has been left: a plain render must be the default render
+      after = [pg.to_html_str(v, content_only=True) for v in values]
+      explicit = [pg.to_html_str(v, content_only=True, **self._kwargs(DEFAULT_OPTS)) for v in values]
       fresh = []
       for i, st in enumerate(case['steps']):
         with pg.view_options(**sub(case['outer'], st)):
@@ -1352,8 +1376,14 @@ class C20(Prop):
       if tree is not None:
         missing = self._missing({'value': st['value'], 'opts': merged_opts(case, st)}, texts_of(tree))
       steps.append({'ok': tree is not None, 'why': why, 'same_as_fresh': seq[i] == fresh[i], 'missing': missing})
+    after_missing = []
+    for i, st in enumerate(case['steps']):
+      tree, _ = strict_parse(after[i])
+      if tree is not None:
+        after_missing += self._missing({'value': st['value'], 'opts': dict(DEFAULT_OPTS)}, texts_of(tree))
     return {'steps': steps, 'unchanged': [self._snapshot(v) for v in values] == before,
-            'model': {'htmls': seq}}
+            'after_same': after == explicit, 'after_missing': after_missing,
+            'model': {'htmls': seq + after}}
 
   def _impl_update(self, case):
     """Renders an interactive control, performs an update and reads every user-text literal of the
@@ -1698,6 +1728,11 @@ class C20(Prop):
                   'what': 'render #%d of the history: %s text %r is not a text node of the output' % (i, m['what'], m['text'])}
         for m in st['missing']:
           return {'signature': 'key-missing:summary-disabled', 'what': 'key %r dropped (summary disabled)' % m['text']}
+      if not out['after_same'] or out['after_missing']:
+        return {'signature': 'render-depends-on-history',
+                'what': 'after all view_options scopes were left, a plain render differs from the render with default '
+                        'options (scope options leaked)%s' % (
+                            '; missing: %r' % [m['text'] for m in out['after_missing']][:4] if out['after_missing'] else '')}
       if not out['unchanged']:
         return {'signature': 'value-modified', 'what': 'a value changed by rendering'}
       return None
@@ -1836,6 +1871,8 @@ class C20(Prop):
       h.append('control:' + case['kind'])
     elif op == 'history':
       h.append('history-steps:%d' % len(case['steps']))
+      if case.get('fresh_process'):
+        h.append('history:fresh-process')
       h.append('history-outer-opts:%d' % len(case['outer']))
       if any(st['inner'] for st in case['steps']):
         h.append('history:nested-scope')
